@@ -182,6 +182,18 @@ class Bytes(Type):
         return out
 
 
+class Str(Type):
+    """A str of symbolic content (modelled by its UTF-8 bytes)."""
+
+    def fresh(self, eng, name, I=None):
+        from .builtins_model import SStr
+
+        return SStr(Bytes().fresh(eng, name + ".utf8", I))
+
+    def concretize(self, eng, model, val):
+        return Bytes().concretize(eng, model, val.utf8)
+
+
 class Stream(Type):
     """io.BytesIO with arbitrary contents and position (0 <= pos <= length)."""
 
